@@ -23,7 +23,7 @@ ORACLE = ('after every call (whether it returned or raised): snapshot of all tab
 ASSUMPTIONS = ['the document is brought to a fixpoint with Calculate before the calls (dirty cells after a failed bundle '
                'are C04\'s known finding)', 'a side-effect formula adds rows to a different table over a bounded key space',
                'exceptions raised by the call itself are allowed']
-BUDGET = {'quick': dict(examples=480, shards=16, max_seconds=55),
+BUDGET = {'quick': dict(examples=1100, shards=16, max_seconds=75),
           'thorough': dict(examples=16000, shards=16, max_seconds=1800)}
 SHRINK_BUDGET = {'quick': 60, 'thorough': 400}
 FNS = ['fetch_table', 'fetch_meta_tables', 'get_formula_error', 'evaluate_formula', 'get_formula_prompt',
